@@ -4,6 +4,7 @@ package tbtree
 
 import (
 	"bytes"
+	"io"
 
 	"github.com/codenotary/immudb/embedded/verifrt"
 )
@@ -291,6 +292,148 @@ func VerifH_TreeHistoryAndRanges() {
 		verifrt.Reach("history served")
 	}
 	// newest version inside [lo, hi]
+	best := -1
+	for q := range vs {
+		if vs[q].ts >= lo && vs[q].ts <= hi {
+			best = q
+		}
+	}
+	if best < 0 {
+		verifrt.Assert(berr != nil, "no version in the range: not found")
+		verifrt.Reach("range empty")
+		return
+	}
+	verifrt.Assert(berr == nil, "a version in the range is found")
+	for q := range vs {
+		if q == best {
+			verifrt.Assert(bts == vs[q].ts && len(bv) == 1 && bv[0] == vs[q].val, "getBetween returns the newest version in the range")
+			verifrt.Assert(bhc == uint64(q+1), "with its revision number")
+		}
+	}
+	verifrt.Reach("range served")
+}
+
+// verifLog is an in-memory appendable (node log / history log of a flushed tree).
+type verifLog struct{ b []byte }
+
+func (a *verifLog) Metadata() []byte                   { return nil }
+func (a *verifLog) Size() (int64, error)               { return int64(len(a.b)), nil }
+func (a *verifLog) Offset() int64                      { return int64(len(a.b)) }
+func (a *verifLog) SetOffset(off int64) error          { a.b = a.b[:off]; return nil }
+func (a *verifLog) DiscardUpto(off int64) error        { return nil }
+func (a *verifLog) Flush() error                       { return nil }
+func (a *verifLog) Sync() error                        { return nil }
+func (a *verifLog) SwitchToReadOnlyMode() error        { return nil }
+func (a *verifLog) Close() error                       { return nil }
+func (a *verifLog) Copy(dstPath string) error          { return nil }
+func (a *verifLog) CompressionFormat() int             { return 0 }
+func (a *verifLog) CompressionLevel() int              { return 0 }
+func (a *verifLog) Write(bs []byte) (int, error)       { a.b = append(a.b, bs...); return len(bs), nil }
+func (a *verifLog) Append(bs []byte) (int64, int, error) {
+	off := int64(len(a.b))
+	a.b = append(a.b, bs...)
+	return off, len(bs), nil
+}
+func (a *verifLog) ReadAt(bs []byte, off int64) (int, error) {
+	if off < 0 || off >= int64(len(a.b)) {
+		return 0, io.EOF
+	}
+	n := copy(bs, a.b[off:])
+	if n < len(bs) {
+		return n, io.EOF
+	}
+	return n, nil
+}
+
+// VerifH_TreeFlushRoundTrip: a flushed tree answers as the in-memory one ("reads are unaffected
+// by flushes"). The tree of VerifH_TreeHistoryAndRanges (preload + `bulks` symbolic inserts over
+// two keys, so keys carry several versions) is serialized by the real node writers
+// (innerNode/leafNode.writeTo: node log + history log) and loaded back by the real readers
+// (readNodeAt / readNodeFrom, node references resolved on demand; the node cache is bypassed).
+// On the loaded tree, for a symbolic probe key: get returns the latest version with the revision
+// count; history (symbolic offset/limit, asc/desc) and getBetween (symbolic range) -- now served
+// from the history log -- return what the reference map says.
+func VerifH_TreeFlushRoundTrip() {
+	bulks := verifrt.Param("bulks")
+	desc := verifrt.Param("desc") == 1
+	t := verifNewTree(verifrt.Param("nodeSize"))
+	m := &verifModel{}
+	for i := 0; i < verifrt.Param("preload"); i++ {
+		k := byte(10 * (i + 1))
+		verifrt.Assume(t.bulkInsert([]*KVT{{K: []byte{k}, V: []byte{1}}}) == nil)
+		m.put(k, 1, m.ts+1)
+	}
+	for b := 0; b < bulks; b++ {
+		k := byte(10)
+		if verifrt.Bool("otherKey") {
+			k = 15
+		}
+		v := verifrt.Byte("v")
+		verifrt.Assert(t.bulkInsert([]*KVT{{K: []byte{k}, V: []byte{v}}}) == nil, "insert")
+		m.put(k, v, m.ts+1)
+	}
+	nLog, hLog := &verifLog{}, &verifLog{}
+	buf := make([]byte, 4096)
+	nOff, _, wN, wH, err := t.root.writeTo(nLog, hLog, &WriteOpts{reportProgress: func(int, int, int) {}}, buf)
+	verifrt.Assert(err == nil, "tree written")
+	verifrt.Assert(wN == int64(len(nLog.b)) && wH == int64(len(hLog.b)), "reported sizes are the bytes written")
+	t2 := verifNewTree(verifrt.Param("nodeSize"))
+	t2.nLog, t2.hLog = nLog, hLog
+	verifrt.Stub("(*embedded/tbtree.TBtree).nodeAt", func(t *TBtree, offset int64, updateCache bool) (node, error) {
+		return t.readNodeAt(offset)
+	})
+	root, err := t2.readNodeAt(nOff)
+	verifrt.Assert(err == nil, "root loaded")
+	verifrt.Reach("loaded")
+
+	probe := byte(10)
+	switch verifrt.Byte("probe") % 3 {
+	case 1:
+		probe = 15
+	case 2:
+		probe = 20
+	}
+	i := m.find(probe)
+	v, ts, hc, gerr := root.get([]byte{probe})
+	offset, limit := verifrt.U64("offset"), verifrt.Int("limit")
+	verifrt.Assume(limit >= 1 && limit <= bulks+2 && offset <= uint64(bulks)+3)
+	tvs, hcount, herr := root.history([]byte{probe}, offset, desc, limit)
+	lo, hi := verifrt.U64("lo"), verifrt.U64("hi")
+	verifrt.Assume(lo <= hi && hi >= 1 && hi <= m.ts+1)
+	bv, bts, bhc, berr := root.getBetween([]byte{probe}, lo, hi)
+	if i < 0 {
+		verifrt.Assert(gerr != nil && herr != nil && berr != nil, "absent key stays absent")
+		verifrt.Reach("absent")
+		return
+	}
+	vs := m.keys[i].versions
+	n := uint64(len(vs))
+	verifrt.Assert(gerr == nil && len(v) == 1 && v[0] == vs[n-1].val && ts == vs[n-1].ts && hc == n, "lookup on the loaded tree: latest version and revision count")
+	switch {
+	case offset == n:
+		verifrt.Assert(herr == ErrNoMoreEntries, "offset at the end: no more entries")
+	case offset > n:
+		verifrt.Assert(herr != nil, "offset beyond the history is refused")
+	default:
+		verifrt.Assert(herr == nil && hcount == n, "history served with the number of versions")
+		want := int(n - offset)
+		if want > limit {
+			want = limit
+		}
+		verifrt.Assert(len(tvs) == want, "page length")
+		for j := 0; j < len(tvs) && j < len(vs); j++ {
+			r := int(offset) + j
+			if desc {
+				r = len(vs) - 1 - int(offset) - j
+			}
+			for q := range vs {
+				if q == r {
+					verifrt.Assert(tvs[j].Ts == vs[q].ts && len(tvs[j].Value) == 1 && tvs[j].Value[0] == vs[q].val, "history entry is the version at that position")
+				}
+			}
+		}
+		verifrt.Reach("history served")
+	}
 	best := -1
 	for q := range vs {
 		if vs[q].ts >= lo && vs[q].ts <= hi {
